@@ -366,7 +366,16 @@ def check_joint(ctx: Ctx, case: CircuitCase, circuit, prog, weights: dict, rng, 
     frows = f_assignments(nf, rng, 16 if quick else 64)
     B = len(frows)
     import jax.numpy as jnp
-    sp._channel_sampler.sample = lambda batch_size: jnp.asarray(frows.astype(np.uint8))   # choose the error rows (instance attribute, no source change)
+    # choose the error rows (instance attribute, no source change).  One probability_of call is about ONE batch of error configurations:
+    # a second request inside the same call is served DIFFERENT rows (the batch rotated), so that an implementation that draws afresh
+    # per component no longer computes P(state | one error configuration) and disagrees with the sequential weights below
+    calls = {"n": 0}
+
+    def fake_sample(batch_size):
+        k_ = calls["n"]
+        calls["n"] += 1
+        return jnp.asarray(np.roll(frows, k_, axis=0).astype(np.uint8))
+    sp._channel_sampler.sample = fake_sample
     states = all_bits(ntot) if ntot <= 5 else rng.integers(0, 2, size=(12, ntot)).astype(bool)
     # always include states of non-zero probability: the most likely completion per component for f = frows[0]
     best = np.zeros(ntot, dtype=bool)
@@ -380,6 +389,7 @@ def check_joint(ctx: Ctx, case: CircuitCase, circuit, prog, weights: dict, rng, 
     states = np.concatenate([states, best[None, :]], axis=0)
     for st in states:
         try:
+            calls["n"] = 0
             got = np.asarray(sp.probability_of(np.asarray(st), batch_size=B), dtype=np.float64)
         except Exception as e:  # noqa
             ctx.violation("joint-exception", f"probability_of raised on circuit {case.key}: {e!r}", dict(circuit=case.text, detectors=case.detectors, state=st.astype(int).tolist(), error=traceback.format_exc()[-1500:]))
@@ -572,6 +582,9 @@ FIXED = [
     # (the chain must start from its modulus)
     ("X_ERROR(0.125) 0\nT 0\nT 0\nT 0\nX_ERROR(0.125) 0\nM 0\nT 0\nM 0", False),
     ("T 0\nSQRT_X 0\nY_ERROR(0.125) 1\nT 1\nCZ 0 1\nCZ 1 0\nCNOT 0 1\nH 1\nSQRT_X 1\nX_ERROR(0.125) 1\nT 0\nM 0 1", False),
+    # several components that read the SAME error parameters (a correlated error / a two-qubit channel across components)
+    ("R 0 1\nE(0.5) X0 X1\nM 0 1", False),
+    ("H 0\nT 0\nH 0\nH 1\nDEPOLARIZE2(0.25) 0 1\nE(0.25) X0 Z1 X2\nM 0\nMX 1\nM 2", False),
     # rotations by odd multiples of pi/8 and pi/16 (the scalar phase of some decomposition terms is then k pi/8: neither a power of
     # e^{i pi/4} nor a "generic" float), alone, summed, next to T gates and noise
     ("H 0\nR_Z(0.125) 0\nH 0\nM 0\nH 0\nR_Z(0.375) 0\nH 0\nM 0", False),
